@@ -98,8 +98,8 @@ func buildInto(c *kit.Corpus, bc buildConfig, dir string) (nshards int, compound
 }
 
 // hasTextAtom / orWithFilterBranch support the known-finding recognizer shared
-// by C10 and C16: an Or with a branch free of text atoms that contains a
-// repository-level filter. Per-shard simplification folds such a filter to
+// by C10 and C16: an Or with a branch that contains a repository-level filter
+// next to a branch with a text atom. Per-shard simplification folds such a filter to
 // TRUE when every repository of the shard satisfies it, which replaces the
 // whole Or by TRUE and drops the matches of its text branches; whether that
 // happens depends on which repositories share a shard.
@@ -107,6 +107,16 @@ func specHasText(q kit.QSpec) bool {
 	t := false
 	q.Atoms(func(a kit.QSpec) {
 		if a.Op == "substr" || a.Op == "regex" || a.Op == "sym" {
+			t = true
+		}
+	})
+	return t
+}
+
+func specHasBranch(q kit.QSpec) bool {
+	t := false
+	q.Atoms(func(a kit.QSpec) {
+		if a.Op == "branch" {
 			t = true
 		}
 	})
@@ -126,17 +136,18 @@ func specHasRepoFilter(q kit.QSpec) bool {
 
 func orWithFilterBranch(q kit.QSpec) bool {
 	if q.Op == "or" {
-		text, filter := false, false
-		for _, k := range q.Kids {
-			if specHasText(k) {
-				text = true
+		// some branch holds a repository-level filter (which a shard may fold
+		// to a constant, possibly making the branch TRUE) and another branch
+		// holds a text or branch atom (whose matches / branch restriction are then dropped)
+		for i, k := range q.Kids {
+			if !specHasRepoFilter(k) {
+				continue
 			}
-			if !specHasText(k) && specHasRepoFilter(k) {
-				filter = true
+			for j, o := range q.Kids {
+				if i != j && (specHasText(o) || specHasBranch(o)) {
+					return true
+				}
 			}
-		}
-		if text && filter {
-			return true
 		}
 	}
 	for _, k := range q.Kids {
@@ -231,7 +242,7 @@ func runC10(rec *kit.Recorder, c c10Case) error {
 			}
 			if a != b {
 				known := ""
-				if a.Branches == b.Branches && a.Language == b.Language && orWithFilterBranch(qs) {
+				if a.Language == b.Language && orWithFilterBranch(qs) {
 					known = "C10-or-with-repo-filter-drops-matches"
 				}
 				return kit.FailKnown(known, "build-dependent", "query %s: %s differs: build A %+v, build B %+v", q, k, a, b)
